@@ -43,7 +43,7 @@ func (c *char) talentBreakListener(e event.StanceBreak) {
 func (c *char) talentAttackListener(e event.AttackEnd) {
 	if c.engine.IsCharacter(e.Attacker) && c.canAttack {
 		// If we still have alive enemies
-		if len(c.engine.Enemies()) > 0 {
+		if c.talentStacks >= 3 && len(c.engine.Enemies()) > 0 {
 			c.insertTalentAttack(e.Targets)
 		}
 	}
